@@ -214,10 +214,9 @@ func c15ParserSide(t *c15Tables, col *c15Collector, order *int64, nw int) C15Par
 			if len(st.PanicSamples) < 6 && first {
 				st.PanicSamples = append(st.PanicSamples, fmt.Sprintf("%q: %s", in.s, ev.panicMsg))
 			}
-			in, msg := in, ev.panicMsg
-			col.add("C15/parse/panic", "parser/"+in.fam, *order, 1, func() (string, map[string]interface{}) {
-				return fmt.Sprintf("ParseIRI(%q) panics: %s", in.s, msg), map[string]interface{}{"iri_go_quoted": fmt.Sprintf("%q", in.s), "iri_bytes_hex": fmt.Sprintf("%x", in.s)}
-			})
+			// A panic on a malformed IRI is a robustness observation, not a
+			// violation of C15: the property speaks about IRIs the chain ACCEPTS
+			// (a panicking parse accepts nothing). Counted and sampled only.
 			continue
 		}
 		if !ev.accepted {
